@@ -131,7 +131,20 @@ func marshalUnknownValue(rng cty.ValueRange, path cty.Path, enc *msgpack.Encoder
 	lenEnc := msgpack.NewEncoder(&lenBuf)
 	lenEnc.EncodeMapLen(mapLen)
 
-	err := enc.EncodeExtHeader(unknownWithRefinementsExt, lenBuf.Len()+refnBuf.Len())
+	bodyLen := lenBuf.Len() + refnBuf.Len()
+	if bodyLen > 1024 {
+		// Our decoder refuses a refinement description longer than this, and
+		// a numeric bound can have an arbitrarily long decimal expansion, so
+		// in that case we fall back to the unrefined encoding: leaving the
+		// refinements out only widens the range, which is always allowed.
+		err := enc.Encode(unknownVal)
+		if err != nil {
+			return path.NewError(err)
+		}
+		return nil
+	}
+
+	err := enc.EncodeExtHeader(unknownWithRefinementsExt, bodyLen)
 	if err != nil {
 		return path.NewErrorf("failed to write unknown value: %s", err)
 	}
